@@ -195,11 +195,12 @@ func workerMain(args []string) {
 	if err != nil {
 		fatal(err)
 	}
-	defer solver.Close()
+	defer func() { solver.Close() }()
 	if p := os.Getenv("GOSYM_SMTLOG"); p != "" {
 		f, _ := os.Create(fmt.Sprintf("%s.%d", p, os.Getpid()))
 		solver.Log = f
 	}
+	reported := map[string]bool{}
 	in := bufio.NewReaderSize(os.Stdin, 1<<24)
 	out := bufio.NewWriter(os.Stdout)
 	fmt.Fprintln(out, "READY")
@@ -234,14 +235,31 @@ func workerMain(args []string) {
 			for _, p := range res.Pending {
 				rsp.Pending = append(rsp.Pending, encDecisions(p))
 			}
-			rsp.Stats, rsp.Findings, rsp.Witnesses, rsp.Funcs = res.Stats, res.Findings, res.Witnesses, res.Funcs
+			rsp.Stats, rsp.Findings, rsp.Witnesses = res.Stats, res.Findings, res.Witnesses
+			for _, f := range res.Funcs {
+				if !reported[f] {
+					reported[f] = true
+					rsp.Funcs = append(rsp.Funcs, f)
+				}
+			}
 			rsp.Samples = res.Samples
 			rsp.SolverS, rsp.WallS = res.SolverS, res.WallS
 			for k := range interp.IntrinsicsUsed {
-				rsp.Stubs = append(rsp.Stubs, k)
+				if !reported["stub:"+k] {
+					reported["stub:"+k] = true
+					rsp.Stubs = append(rsp.Stubs, k)
+				}
 			}
 			sort.Strings(rsp.Stubs)
 		}()
+		if interp.TermCount() > 150000 {
+			solver.Close()
+			interp.ResetTerms()
+			solver, err = smt.NewSolver(interp.SmtCtx(), spec.Solver, spec.Timeout)
+			if err != nil {
+				fatal(err)
+			}
+		}
 		b, _ := json.Marshal(rsp)
 		out.Write(b)
 		out.WriteByte('\n')
@@ -489,7 +507,11 @@ func checkMain(args []string) {
 				it := queue[n]
 				batch := []string{it.prefix}
 				queue = queue[:n]
-				for len(batch) < 4 && len(queue) > 0 && queue[len(queue)-1].ei == it.ei && len(queue) > 4*len(workers) {
+				maxBatch := len(queue) / (2 * len(workers))
+				if maxBatch > 512 {
+					maxBatch = 512
+				}
+				for len(batch) < maxBatch && len(queue) > 0 && queue[len(queue)-1].ei == it.ei {
 					batch = append(batch, queue[len(queue)-1].prefix)
 					queue = queue[:len(queue)-1]
 				}
@@ -501,6 +523,9 @@ func checkMain(args []string) {
 				}
 				mu.Unlock()
 				budget := 40
+				if 3*len(batch) > budget {
+					budget = 3 * len(batch)
+				}
 				rsp, err := w.do(workReq{Pkg: r.Entry.Pkg, Fn: r.Entry.Fn, Start: batch, Budget: budget, Params: r.Params, Wit: wit})
 				mu.Lock()
 				active--
@@ -537,7 +562,12 @@ func checkMain(args []string) {
 				}
 				r.SolverS += rsp.SolverS
 				if *verbose {
-					fmt.Fprintf(os.Stderr, "[%s] paths=%d queue=%d findings=%d\n", r.Entry.Fn, r.Stats.Paths, len(queue), len(r.Findings))
+					pre := batch[0]
+					if len(pre) > 40 {
+						pre = pre[:40]
+					}
+					fmt.Fprintf(os.Stderr, "[%s] +paths=%d +q=%d solver=%.2fs wall=%.2fs prefix=%s | total paths=%d queue=%d findings=%d\n", r.Entry.Fn, rsp.Stats.Paths,
+						rsp.Stats.QSat+rsp.Stats.QUnsat+rsp.Stats.QUnknown, rsp.SolverS, rsp.WallS, pre, r.Stats.Paths, len(queue), len(r.Findings))
 				}
 				mu.Unlock()
 				cond.Broadcast()
